@@ -97,6 +97,7 @@ void Out::mat(const MatrixNd &m) { for (int i = 0; i < m.rows(); i++) for (int j
 void Out::st(const SpatialTransform &X) { m3(X.E); v3(X.r); }
 void Out::line(long seq, const char *label, const VectorNd &v) { begin(seq, label); vec(v); end(); }
 
+bool g_luamode = false;
 static std::string name_of(long nm) {
   if (nm == 0) return "";
   if (nm == 1) return "ROOT";
@@ -222,7 +223,16 @@ static void run_line(Ctx &C, const std::string &line, long seq) {
   Model &m = *C.model;
   const unsigned UMAX = std::numeric_limits<unsigned int>::max();
   try {
-    if (cmd == "gravity") { m.gravity = T.v3(); }
+    if (cmd == "gravity") { if (!g_luamode) m.gravity = T.v3(); }
+    else if (cmd == "add" && g_luamode) {
+      // the model was loaded from a Lua description: resolve the body by its name instead of adding it
+      T.str(); long nm = T.integer();
+      if (nm >= 1) { bool seen = false; for (size_t k = 0; k < C.used_names.size(); k++) if (C.used_names[k] == (unsigned long)nm) seen = true; if (!seen) C.used_names.push_back(nm); }
+      unsigned id = (nm >= 1) ? m.GetBodyId(name_of(nm).c_str()) : UMAX;
+      if (id != UMAX) { out.begin(seq, "add"); out.s("ok"); out.end(); out.begin(seq, "addid"); out.u(id); out.end(); }
+      else { out.begin(seq, "add"); out.s("rejected"); out.end(); }
+      C.ids.push_back(id);
+    }
     else if (cmd == "add") {
       std::string pref = T.str(); long nm = T.integer();
       T.str(); Matrix3d E = T.m3(); T.str(); Vector3d r = T.v3();
@@ -431,10 +441,11 @@ int main(int argc, char **argv) {
     printf("case %s\n", cases[c].first.c_str()); fflush(stdout);
     pid_t pid = nofork ? 0 : fork();
     if (pid == 0) {
+      if (!nofork) alarm(30);      // a case that hangs is a crash, not a stalled check
       { Ctx *C = new Ctx();
         for (size_t k = 0; k < cases[c].second.size(); k++) {
           // "newmodel": the rest of the case works on a fresh model (twin descriptions of one mechanism, C07)
-          if (cases[c].second[k] == "newmodel") { delete C; C = new Ctx(); continue; }
+          if (cases[c].second[k] == "newmodel") { delete C; C = new Ctx(); g_luamode = false; continue; }
           run_line(*C, cases[c].second[k], (long)k); }
         delete C; }
       fflush(stdout);
